@@ -99,7 +99,10 @@ func run(m *master, d damage, root string) (o obs) {
 	// first an out-of-order sample for every known series (older than its newest sample, inside
 	// the window), before anything else is appended
 	if m.opts.OOOWindow > 0 {
-		var in []smp
+		// (a series never written before comes first of all, so that it is created before a
+		// series whose Series record was lost is created again)
+		in := []smp{{m.fresh, m.maxT + 3, v}}
+		v++
 		for s := 0; s < m.active; s++ {
 			tt := m.maxT - 17 - int64(s)
 			if tt > 0 && !m.used[[2]int64{int64(s), tt}] {
@@ -108,8 +111,13 @@ func run(m *master, d damage, root string) (o obs) {
 			}
 		}
 		o.Attempted += len(in)
-		o.First = tx(db, m, in)
-		o.Added = append(o.Added, o.First...)
+		ack := tx(db, m, in)
+		o.Added = append(o.Added, ack...)
+		for _, x := range ack {
+			if x.S != m.fresh {
+				o.First = append(o.First, x)
+			}
+		}
 	}
 	for k := 0; k < 2; k++ {
 		t += 7
